@@ -53,7 +53,7 @@ static const int MAXENT = 96;
 struct Pending { int code; int slot; int64_t arg; };
 struct Ctx {
   const RunSpec* spec; Server* srv; Ent ent[MAXENT]; int nent;
-  Ent* timerSlot[4]; Ent* listenerSlot[2]; Ent* estabSlot[3]; Ent* clientSlot[6];
+  Ent* timerSlot[8];   /* with the driver and the loop's default timer up to ten queue entries: deep enough for every re-balancing case of the due-time tree */ Ent* listenerSlot[2]; Ent* estabSlot[3]; Ent* clientSlot[6];
   size_t pos; int waitTicks; bool scriptDone, finishing, stopped; Ent* driver;
   std::vector<Pending>* pendOwn; std::vector<Pending>* pendAny;
   uint64_t seq; uint64_t lastReturnSeq; int returns; int interruptsInvoked; uint64_t lastInterruptDoneSeq; int interruptsCompleted; bool inRun; uint64_t runStartSeq[2];
@@ -80,7 +80,7 @@ static void removeEnt(Ent* e) {
   if (!e || e->removed || !e->alive) return;
   logEvent("remove", e->kind, e->id);
   switch (e->kind) {
-  case K_TIMER: C.srv->remove(*(Server::Timer*)e->handle); for (int i = 0; i < 4; ++i) if (C.timerSlot[i] == e) C.timerSlot[i] = 0; break;
+  case K_TIMER: C.srv->remove(*(Server::Timer*)e->handle); for (int i = 0; i < 8; ++i) if (C.timerSlot[i] == e) C.timerSlot[i] = 0; break;
   case K_LISTENER: C.srv->remove(*(Server::Listener*)e->handle); for (int i = 0; i < 2; ++i) if (C.listenerSlot[i] == e) C.listenerSlot[i] = 0; break;
   case K_ESTAB: if (!e->resolved) C.unresolvedEstab--; C.srv->remove(*(Server::Establisher*)e->handle); for (int i = 0; i < 3; ++i) if (C.estabSlot[i] == e) C.estabSlot[i] = 0; break;
   case K_CLIENT: C.srv->remove(*(Server::Client*)e->handle); for (int i = 0; i < 6; ++i) if (C.clientSlot[i] == e) C.clientSlot[i] = 0; if (e->far) { delete e->far; e->far = 0; } break;
@@ -96,7 +96,7 @@ static void runPending(Ent* self) {
     std::vector<Pending>& v = pass ? *C.pendAny : *C.pendOwn;
     for (size_t i = 0; i < v.size();) {
       Pending p = v[i];
-      bool mine = pass ? true : ((p.code == T_REMOVE && self->kind == K_TIMER && C.timerSlot[p.slot % 4] == self) || (p.code == C_REMOVE && self->kind == K_CLIENT && C.clientSlot[p.slot % 6] == self) ||
+      bool mine = pass ? true : ((p.code == T_REMOVE && self->kind == K_TIMER && C.timerSlot[p.slot % 8] == self) || (p.code == C_REMOVE && self->kind == K_CLIENT && C.clientSlot[p.slot % 6] == self) ||
                                  (p.code == E_REMOVE && self->kind == K_ESTAB && C.estabSlot[p.slot % 3] == self) || (p.code == L_REMOVE && self->kind == K_LISTENER && C.listenerSlot[p.slot % 2] == self));
       if (!mine) { ++i; continue; }
       { Host h; v.erase(v.begin() + i); }
@@ -115,7 +115,7 @@ void TimerCb::onActivated() {
     e->activations++;
     // catch-up rule: every activation of a live timer that was due strictly before this driver activation must have happened
     int64_t D = e->t0lo + e->activations * e->interval;
-    for (int i = 0; i < 4; ++i) { Ent* t = C.timerSlot[i]; if (!t || t->removed) continue; int64_t must = (D - 1 - t->t0hi) / t->interval; if (D - 1 - t->t0hi >= 0 && t->activations < must) fail("C14/timer_missed", "timer #%d (interval %lld, created at tick %lld) was activated %ld times although %lld activations were due before tick %lld", t->id, (long long)t->interval, (long long)t->t0hi, t->activations, (long long)must, (long long)D); }
+    for (int i = 0; i < 8; ++i) { Ent* t = C.timerSlot[i]; if (!t || t->removed) continue; int64_t must = (D - 1 - t->t0hi) / t->interval; if (D - 1 - t->t0hi >= 0 && t->activations < must) fail("C14/timer_missed", "timer #%d (interval %lld, created at tick %lld) was activated %ld times although %lld activations were due before tick %lld", t->id, (long long)t->interval, (long long)t->t0hi, t->activations, (long long)must, (long long)D); }
     execOp(0, 0, 0, e); return;
   }
   e->activations++;
@@ -219,10 +219,10 @@ static void execOp(int code, int slot, int64_t arg, Ent* self) {
   }
   logEvent("script", code, slot, arg);
   switch (code) {
-  case T_CREATE: { int sl = slot % 4; if (C.timerSlot[sl]) break; static const int iv[] = {1, 2, 3, 5, 10, 50, 300, 5000}; Ent* e = newEnt(K_TIMER, sl); if (!e) break; e->interval = iv[arg % 8];
+  case T_CREATE: { int sl = slot % 8; if (C.timerSlot[sl]) break; static const int iv[] = {1, 2, 3, 5, 10, 50, 300, 5000}; Ent* e = newEnt(K_TIMER, sl); if (!e) break; e->interval = iv[arg % 8];
     int64_t lo = Time::ticks(); Server::Timer* t = C.srv->time(e->interval, e->tcb); int64_t hi = Time::ticks(); e->t0lo = lo; e->t0hi = hi; e->handle = t; C.timerSlot[sl] = e;
-    for (int i = 0; i < 4; ++i) if (i != sl && C.timerSlot[i] && C.timerSlot[i]->t0lo + C.timerSlot[i]->interval * (C.timerSlot[i]->activations + 1) == lo + e->interval) probe("timer_equal_due"); break; }
-  case T_REMOVE: { Ent* e = C.timerSlot[slot % 4]; if (e) { if (e == self) probe("timer_removed_in_own_callback"); else if (self && self->kind == K_TIMER) probe("timer_removed_by_other_timer"); removeEnt(e); } break; }
+    for (int i = 0; i < 8; ++i) if (i != sl && C.timerSlot[i] && C.timerSlot[i]->t0lo + C.timerSlot[i]->interval * (C.timerSlot[i]->activations + 1) == lo + e->interval) probe("timer_equal_due"); break; }
+  case T_REMOVE: { Ent* e = C.timerSlot[slot % 8]; if (e) { if (e == self) probe("timer_removed_in_own_callback"); else if (self && self->kind == K_TIMER) probe("timer_removed_by_other_timer"); removeEnt(e); } break; }
   case L_LISTEN: { int sl = slot % 2; if (C.listenerSlot[sl]) break; Ent* e = newEnt(K_LISTENER, sl); if (!e) break; e->port = 5000 + sl; e->acceptPolicy = (int)(arg % 4); if (arg % 7 < 4) e->acceptPolicy = 0;
     Server::Listener* l = C.srv->listen(Socket::loopbackAddress, (uint16)e->port, e->lcb); if (!l) { e->alive = false; e->removed = true; probe("listen_failed"); break; } e->handle = l; C.listenerSlot[sl] = e; break; }
   case L_REMOVE: removeEnt(C.listenerSlot[slot % 2]); break;
@@ -366,7 +366,7 @@ static void generate(RunSpec& s, int tier) {
   s.knobs["closed_removes_partner"] = profile == 4 ? r(3) : (r(6) == 0 ? 1 : 0);
   int ns = 6 + (int)r(30);
   for (int i = 0; i < ns; ++i) {
-    Op o; o.task = 0; o.a[0] = (int64_t)r(12); o.a[1] = (int64_t)r(100000); o.a[2] = (int64_t)r(1000); o.a[3] = (int64_t)r(8);   // a3: where (0,3.. driver; 1 own callback; 2 any callback)
+    Op o; o.task = 0; o.a[0] = (int64_t)r(24); o.a[1] = (int64_t)r(100000); o.a[2] = (int64_t)r(1000); o.a[3] = (int64_t)r(8);   // a3: where (0,3.. driver; 1 own callback; 2 any callback)
     uint64_t k = r(100);
     if (profile == 1) o.code = k < 45 ? T_CREATE : k < 80 ? T_REMOVE : k < 90 ? S_WAIT : C_PAIR;
     else if (profile == 2) o.code = k < 14 ? L_LISTEN : k < 20 ? L_REMOVE : k < 34 ? E_ADDR : k < 46 ? E_HOST : k < 54 ? E_REMOVE : k < 62 ? C_PAIR : k < 74 ? C_REMOVE : k < 80 ? C_WRITE : k < 84 ? S_ACCEPTPOLICY : k < 92 ? S_WAIT : S_INTERRUPT;
